@@ -125,13 +125,26 @@ def _rand_op(rng, filled, n):
         d = rng.choice([-1, NSLOTS])
     inplace = rng.random() < 0.4
     aid = rng.randint(1, max(1, n)) if rng.random() < 0.95 else n + rng.randint(1, 2)
+    r2 = rng.random()
+    if r2 < 0.06:      # set algebra inherited from collections.abc
+        s2 = rng.choice(sorted(filled)) if rng.random() < 0.95 else rng.randrange(NSLOTS)
+        if rng.random() < 0.7:
+            return ["setop", s, s2, rng.choice(["or", "and", "sub", "xor"]), inplace, d]
+        return ["setcmp", s, s2, rng.choice(["eq", "le", "disjoint"])]
+    if r2 < 0.085:     # GroupBy.map / do, both result types
+        rt = rng.choice(["agentset", "list"])
+        if rng.random() < 0.6:
+            gm = rng.choice([["len", True], ["len", False], ["sum", rng.choice([0, 0, 1, 2])], ["get", rng.choice([0, 0, 1, 2])]])
+            return ["groupmap", s, _rand_key(rng), rt, gm]
+        return ["groupdo", s, _rand_key(rng), rt, rng.random() < 0.5, rng.choice([0, 1, 2]), rng.randint(-1, 3)]
     r = rng.random()
     if r < 0.22:
         p = _rand_pred(rng) if rng.random() < 0.75 else None
         ty = rng.randrange(4) if rng.random() < 0.35 else None
         return ["select", s, p, _rand_atmost(rng, n), ty, inplace, d]
     if r < 0.36:
-        return ["sort", s, _rand_key(rng), rng.random() < 0.5, inplace, d]
+        key = ["pair", _rand_key(rng), _rand_key(rng)] if rng.random() < 0.25 else _rand_key(rng)
+        return ["sort", s, key, rng.random() < 0.5, inplace, d]
     if r < 0.46:
         return ["shuffle", s, inplace, d]
     if r < 0.51:
@@ -207,7 +220,7 @@ def _rand_case(rng, nmax=10, maxops=25):
     for _ in range(rng.randint(3, maxops)):
         op = _rand_op(rng, filled, n)
         ops.append(op)
-        if op[0] in ("select", "sort", "shuffle") and not op[-2] and 0 <= op[-1] < NSLOTS:
+        if op[0] in ("select", "sort", "shuffle", "setop") and not op[-2] and 0 <= op[-1] < NSLOTS:
             filled.add(op[-1])
         if op[0] == "groupget" and 0 <= op[-1] < NSLOTS and rng.random() < 0.5:
             filled.add(op[-1])
@@ -234,6 +247,10 @@ def _corner_cases():
         ["sort", 0, ["attr", 0], False, False, 1], ["sort", 0, ["attr", 0], True, False, 2],
         ["sort", 0, ["neg", 0], True, False, 3], ["sort", 1, ["idmod", 2], False, True, 0],
         ["sort", 0, ["attr", 1], True, True, 0], ["sort", 2, ["attr", 2], True, False, 4]]}
+    yield {"seed": 1, "agents": ags, "init": ids, "ops": [
+        ["sort", 0, ["pair", ["attr", 0], ["idmod", 2]], False, False, 1], ["sort", 0, ["pair", ["attr", 0], ["idmod", 2]], True, False, 2],
+        ["sort", 1, ["pair", ["idmod", 2], ["neg", 0]], True, True, 0], ["sort", 0, ["pair", ["attr", 0], ["attr", 1]], True, True, 0],
+        ["sort", 2, ["pair", ["cls"], ["attr", 0]], False, False, 3]]}
     # every at_most form against the same set
     ams = [["inf"], ["int", 0], ["int", 1], ["int", 2], ["int", 5], ["int", 6], ["frac", 0, 0], ["frac", 1, 0],
            ["frac", 1, 1], ["frac", 1, 2], ["frac", 3, 2], ["frac", 1, 3], ["frac", 7, 3], ["frac", 15, 4]]
@@ -263,6 +280,32 @@ def _corner_cases():
         ["contains", 0, 3], ["contains", 0, 5], ["index", 0, -1], ["index", 0, 3], ["index", 0, -4], ["slice", 0, 1, -1], ["slice", 0, -2, None],
         ["slice", 0, 2, 1], ["len", 0], ["indexof", 0, 2], ["indexof", 0, 4], ["count", 0, 2], ["count", 0, 4], ["reversed", 0],
         ["pop", 0], ["pop", 0], ["clear", 0], ["pop", 0], ["clear", 0], ["reversed", 0]]}
+    # set algebra: every operator, copying and in place, a set with itself, comparisons
+    so = [["select", 0, ["idmod", 2, 1], ["inf"], None, False, 1], ["sort", 0, ["id"], False, False, 2], ["remove", 2, 5], ["remove", 2, 1]]
+    for o in ("or", "and", "sub", "xor"):
+        so += [["setop", 1, 2, o, False, 3], ["setop", 2, 1, o, False, 4], ["setop", 0, 0, o, False, 5]]
+    so += [["setcmp", 0, 2, c] for c in ("eq", "le", "disjoint")] + [["setcmp", 2, 0, "le"], ["setcmp", 1, 5, "disjoint"], ["setcmp", 0, 0, "eq"]]
+    yield {"seed": 8, "agents": ags, "init": ids, "ops": so}
+    so2 = [["select", 0, ["idmod", 2, 1], ["inf"], None, False, 1], ["sort", 0, ["id"], False, False, 2], ["remove", 2, 5], ["remove", 2, 1]]
+    for o in ("or", "and", "sub", "xor"):
+        so2 += [["select", 1, None, ["inf"], None, False, 3], ["setop", 3, 2, o, True, 0], ["select", 2, None, ["inf"], None, False, 4],
+                ["setop", 4, 1, o, True, 0], ["select", 0, None, ["inf"], None, False, 5], ["setop", 5, 5, o, True, 0]]
+    yield {"seed": 8, "agents": ags, "init": ids, "ops": so2}
+    # GroupBy.map / do: method names and callables on both result types
+    gm = []
+    for rt in ("agentset", "list"):
+        gm += [["groupby", 0, ["attr", 0], rt], ["groupmap", 0, ["attr", 0], rt, ["len", True]], ["groupmap", 0, ["attr", 0], rt, ["len", False]],
+               ["groupmap", 0, ["cls"], rt, ["sum", 0]], ["groupmap", 0, ["cls"], rt, ["sum", 1]], ["groupmap", 0, ["attr", 0], rt, ["get", 0]],
+               ["groupmap", 0, ["attr", 0], rt, ["get", 2]], ["groupdo", 0, ["attr", 0], rt, True, 1, 7], ["groupdo", 0, ["attr", 0], rt, False, 2, 8],
+               ["groupmap", 0, ["attr", 2], rt, ["len", False]]]
+    gm += [["clear", 0], ["groupmap", 0, ["attr", 0], "list", ["get", 0]], ["groupdo", 0, ["attr", 0], "list", True, 1, 7]]
+    yield {"seed": 9, "agents": ags, "init": ids, "ops": gm}
+    # the boundary of the quantifier: at_most < 0 and floats above 1.0 (documented by theorems, not judged by the oracle)
+    yield {"seed": 10, "agents": ags, "init": ids, "ops": [
+        ["select", 0, None, ["frac", 5, 1], None, False, 1], ["select", 0, None, ["frac", 3, 1], None, False, 2],
+        ["select", 0, ["le", 0, 0], ["frac", 9, 2], None, False, 3], ["select", 0, None, ["int", -1], None, False, 4],
+        ["select", 0, ["le", 1, 0], ["int", -2], None, False, 5], ["select", 0, ["le", 1, 0], ["frac", -1, 1], None, False, 5],
+        ["select", 0, None, ["frac", 33, 4], 0, True, 0], ["select", 0, None, ["frac", -3, 2], None, True, 0]]}
     # copies are detached from the original and from one another
     yield {"seed": 7, "agents": ags, "init": ids, "ops": [
         ["select", 0, None, ["inf"], None, False, 1], ["select", 0, None, ["inf"], None, True, 2], ["remove", 1, 2], ["add", 1, 2], ["shuffle", 1, True, 0],
@@ -274,7 +317,7 @@ def enumerate_cases(tier, broken=False):
     """targeted sweep: every member list over <= 4 agents with a0 in {0,1} (all tie patterns) and two classes x
     every select(pred, at_most, type, inplace) / sort(key, direction, inplace) / groupby, each followed by the
     same call on the derived set."""
-    nmax = 4 if (tier == "thorough" or broken) else 3
+    nmax = 4 if (tier == "thorough" or broken) else 2
     preds = [None, ["true"], ["false"], ["le", 0, 0], ["not", ["le", 0, 0]], ["idmod", 2, 0]]
     for n in range(0, nmax + 1):
         ams = [["inf"], ["frac", 0, 0], ["frac", 1, 0], ["frac", 1, 1], ["frac", 1, 2], ["frac", 3, 2], ["frac", 5, 3]] + [["int", k] for k in range(n + 2)]
@@ -353,6 +396,9 @@ def _mk_pred(p):
 def _mk_key(k, as_callable=False):
     """what is handed to the implementation: a str for ["attr", n] unless a callable is needed"""
     kind = k[0]
+    if kind == "pair":        # tuple key (sort only): lexicographic
+        f1, f2 = _mk_key(k[1], True), _mk_key(k[2], True)
+        return lambda a: (f1(a), f2(a))
     if kind == "attr":
         name = f"a{k[1]}"
         return (lambda a: getattr(a, name)) if as_callable else name
@@ -384,8 +430,16 @@ class _OpTimeout(Exception):
     pass
 
 
+class _Skip(Exception):
+    """the operation names a slot that does not exist: no-op in driver and model"""
+
+
+class _Done(Exception):
+    """early normal end of one operation inside the driver (carries the return observation)"""
+
+
 def _on_alarm(signum, frame):
-    raise _OpTimeout("the operation did not return within %d s" % OP_TIMEOUT)
+    raise _OpTimeout("the operation did not return within %d s of CPU time" % OP_TIMEOUT)
 
 
 OP_TIMEOUT = 2
@@ -399,17 +453,20 @@ def run_impl(case):
 
     # an implementation that loops for ever (e.g. clear() when discard stops discarding) must end as a
     # reported failure, not as a hung check: every operation runs under an alarm
-    signal.signal(signal.SIGALRM, _on_alarm)
+    # CPU time of this process (ITIMER_VIRTUAL), not wall-clock: on a heavily loaded machine a worker can be
+    # descheduled for seconds, which must not look like a hang
+    signal.signal(signal.SIGVTALRM, _on_alarm)
     try:
         # repeating: an exception raised by the handler inside a finaliser / weakref callback is swallowed by
         # the interpreter, so keep firing until it lands in ordinary code
         return _run_impl(case, mesa, AgentSet,
-                         lambda on=True: signal.setitimer(signal.ITIMER_REAL, OP_TIMEOUT if on else 0, 0.05 if on else 0))
+                         lambda on=True: signal.setitimer(signal.ITIMER_VIRTUAL, OP_TIMEOUT if on else 0, 0.05 if on else 0))
     finally:
-        signal.setitimer(signal.ITIMER_REAL, 0)
+        signal.setitimer(signal.ITIMER_VIRTUAL, 0)
 
 
 def _run_impl(case, mesa, AgentSet, arm):
+    import warnings
 
     cl = _classes()
     model = mesa.Model(seed=case.get("seed", 0))
@@ -519,7 +576,26 @@ def _run_impl(case, mesa, AgentSet, arm):
                     at_most, n = am[1], am[1]
                 else:
                     at_most, n = am[1] / float(2 ** am[2]), (len(before) * am[1]) >> am[2]
+                boundary = (am[0] == "int" and am[1] < 0) or (am[0] == "frac" and (am[1] < 0 or am[1] > 2 ** am[2]))
                 keepf = lambda a: (f is None or f(a)) and (tycls is None or isinstance(a, tycls))  # noqa: E731
+                if boundary:
+                    # outside the statement's quantifier: the model documents what the code does (T2 compares), the
+                    # oracle only demands an in-order sub-list and the frames
+                    kwb = {"at_most": at_most}
+                    if f is not None:
+                        kwb["filter_func"] = f
+                    if tycls is not None:
+                        kwb["agent_type"] = tycls
+                    res = st.select(inplace=inplace, **kwb)
+                    got = list(res)
+                    it = iter(before)
+                    if not all(any(x is y for y in it) for x in got):
+                        fail(i, "C03/select/not-an-ordered-sublist", f"{op} on {ids(before)}: got {ids(got)}")
+                    if inplace:
+                        shadow[s], touched = got, s
+                    else:
+                        pool[d], shadow[d], touched = res, got, d
+                    raise _Done([1 if res is st else 0])
                 eager = _attempt(lambda: [a for a in before if keepf(a)][:n])
                 lazy = _attempt(lambda: list(itertools.islice((a for a in before if keepf(a)), n)))
                 kw = {}
@@ -641,7 +717,7 @@ def _run_impl(case, mesa, AgentSet, arm):
                             fail(i, "C03/groupby/result-type", f"{op}: group {k} is a {type(v).__name__}")
                             break
                 if kind == "groupby":
-                    ret = [len(groups)] + [x for k, v in groups for x in [k, len(v)] + ids(v)]
+                    ret = [1 if rt == "agentset" else 0, len(groups)] + [x for k, v in groups for x in [k, len(v)] + ids(v)]
                 else:
                     kvq, d = op[3], op[4]
                     res = gb.groups[kvq]
@@ -684,6 +760,97 @@ def _run_impl(case, mesa, AgentSet, arm):
                     if res is not gb:
                         fail(i, "C03/groupby/do-returns-other-object", f"{op}: do did not return the GroupBy itself")
                     ret = [1 if res is gb else 0]
+            elif kind in ("groupmap", "groupdo"):
+                key, rt = op[2], op[3]
+                kf = _mk_key(key)
+                kc = _mk_key(key, as_callable=True)
+                keys = _attempt(lambda: [kc(a) for a in before])
+                gb = st.groupby(kf, result_type=rt)
+                if keys[0] != "ok":
+                    fail(i, "C03/groupby/no-exception", f"{op} on {ids(before)}: the key raises {keys[1].__name__} but groupby returned")
+                    expg = [(k, list(v)) for k, v in gb]
+                else:
+                    expg = [(k, [a for a, ka in zip(before, keys[1]) if ka == k]) for k in dict.fromkeys(keys[1])]
+                if kind == "groupmap":
+                    gm = op[4]
+                    if gm[0] == "len":
+                        res = gb.map("__len__") if gm[1] else gb.map(len)
+                        e = ("ok", [(k, [len(v)]) for k, v in expg])
+                        flat = lambda v: [v]  # noqa: E731
+                    elif gm[0] == "sum":
+                        name = f"a{gm[1]}"
+                        res = gb.map(lambda g: sum(getattr(a, name) for a in g))
+                        e = _attempt(lambda: [(k, [sum(vars(a)[name] for a in v)]) for k, v in expg])
+                        flat = lambda v: [v]  # noqa: E731
+                    else:
+                        name = f"a{gm[1]}"
+                        res = gb.map("get", name)
+                        if rt == "list":    # a list has no method get
+                            e = ("err", AttributeError) if expg else ("ok", [])
+                        else:
+                            e = _attempt(lambda: [(k, [len(v)] + [vars(a)[name] for a in v]) for k, v in expg])
+                        flat = lambda v: [len(v)] + list(v)  # noqa: E731
+                    got = [(k, flat(v)) for k, v in res.items()]
+                    if e[0] != "ok":
+                        fail(i, "C03/groupby/map-no-exception", f"{op} on {ids(before)}: list semantics raises {e[1].__name__}, map returned {res}")
+                    elif got != e[1]:
+                        fail(i, "C03/groupby/map-wrong", f"{op} on {ids(before)}: got {got}, list semantics gives {e[1]}")
+                    ret = [x for k, v in got for x in [k] + v]
+                else:
+                    by_name, n, v = op[4], op[5], op[6]
+                    name = f"a{n}"
+                    if by_name:
+                        res = gb.do("set", name, v)
+                        if rt == "list" and expg:
+                            fail(i, "C03/groupby/do-no-exception", f"{op} on {ids(before)}: a list has no method set but do returned")
+                    else:
+                        res = gb.do(lambda g: [setattr(a, name, v) for a in g])
+                    for a in before:
+                        sattrs[a.unique_id][n] = v
+                    if res is not gb:
+                        fail(i, "C03/groupby/do-returns-other-object", f"{op}: do did not return the GroupBy itself")
+                    ret = [1 if res is gb else 0]
+            elif kind in ("setop", "setcmp"):
+                import operator as _op
+                s2 = op[2]
+                if not (isinstance(s2, int) and 0 <= s2 < NSLOTS) or pool[s2] is None or (kind == "setop" and not (0 <= op[5] < NSLOTS)):
+                    raise _Skip()
+                other = pool[s2]
+                b2 = list(shadow[s2])
+                inb = lambda l: (lambda x: any(x is y for y in l))  # noqa: E731
+                if kind == "setop":
+                    o, inplace, d = op[3], op[4], op[5]
+                    fn = {("or", False): _op.or_, ("and", False): _op.and_, ("sub", False): _op.sub, ("xor", False): _op.xor,
+                          ("or", True): _op.ior, ("and", True): _op.iand, ("sub", True): _op.isub, ("xor", True): _op.ixor}[(o, inplace)]
+                    with warnings.catch_warnings():
+                        warnings.simplefilter("ignore")
+                        res = fn(st, other)
+                    got = list(res)
+                    want = {"or": [x for x in before] + [x for x in b2 if not inb(before)(x)],
+                            "and": [x for x in before if inb(b2)(x)],
+                            "sub": [x for x in before if not inb(b2)(x)],
+                            "xor": [x for x in before if not inb(b2)(x)] + [x for x in b2 if not inb(before)(x)]}[o]
+                    if sorted(ids(got)) != sorted(ids(want)) or len(set(ids(got))) != len(got):
+                        fail(i, "C03/setop/wrong-members", f"{op} on {ids(before)} and {ids(b2)}: got {ids(got)}, the set operation gives {sorted(ids(want))}")
+                    if inplace:
+                        if res is not st:
+                            fail(i, "C03/setop/inplace-returns-other-object", f"{op}: the augmented operator did not return the set itself")
+                        shadow[s], touched = got, s
+                    else:
+                        if res is st or res is other:
+                            fail(i, "C03/setop/copy-aliases-operand", f"{op}: the operator returned one of its operands")
+                        if not isinstance(res, AgentSet):
+                            fail(i, "C03/setop/result-type", f"{op}: the result is a {type(res).__name__}")
+                        pool[d], shadow[d], touched = res, got, d
+                    ret = [1 if res is st else 0]
+                else:
+                    c = op[3]
+                    r = {"eq": lambda: st == other, "le": lambda: st <= other, "disjoint": lambda: st.isdisjoint(other)}[c]()
+                    sa, sb = set(ids(before)), set(ids(b2))
+                    e = {"eq": sa == sb, "le": sa <= sb, "disjoint": not (sa & sb)}[c]
+                    if bool(r) != e:
+                        fail(i, "C03/setcmp/wrong", f"{op} on {ids(before)} and {ids(b2)}: got {r}")
+                    ret = [1 if r else 0]
             elif kind == "get":
                 _, _, names, single, mode, dflt = op
                 if single and names:
@@ -823,6 +990,12 @@ def _run_impl(case, mesa, AgentSet, arm):
                 ret = []
             else:
                 raise ValueError(kind)
+        except _Done as dn:
+            ret = dn.args[0]
+        except _Skip:
+            ops_for_model.append(mop)
+            obs.append([-2] + obs_state())
+            continue
         except Exception as e:  # noqa: BLE001
             arm(False)
             exc = e
@@ -833,7 +1006,13 @@ def _run_impl(case, mesa, AgentSet, arm):
         else:
             k = _EXC_KIND.get(type(exc))
             expected = False
-            if k == E_ATTR and kind == "groupagg":
+            if k == E_ATTR and kind == "groupmap":
+                gmk = op[4]
+                expected = (_would_raise_attr(op, before, cl) or (gmk[0] == "get" and op[3] == "list" and bool(before))
+                            or (gmk[0] in ("sum", "get") and any(f"a{gmk[1]}" not in vars(a) for a in before)))
+            elif k == E_ATTR and kind == "groupdo":
+                expected = _would_raise_attr(op, before, cl) or (op[4] and op[3] == "list" and bool(before))
+            elif k == E_ATTR and kind == "groupagg":
                 expected = _would_raise_attr(op, before, cl) or any(f"a{op[3]}" not in vars(a) for a in before)
             elif k == E_ATTR and kind in ("select", "sort", "groupby", "groupget", "get", "agg", "map", "groupcount", "groupdoset"):
                 # legitimate exactly when evaluating the user function over the members raises
@@ -877,7 +1056,7 @@ def _would_raise_attr(op, before, cl):
             for a in before:
                 if f is not None:
                     f(a)
-        elif kind in ("sort", "groupby", "groupget", "groupcount", "groupagg", "groupdoset"):
+        elif kind in ("sort", "groupby", "groupget", "groupcount", "groupagg", "groupdoset", "groupmap", "groupdo"):
             kc = _mk_key(op[2], as_callable=True)
             for a in before:
                 kc(a)
@@ -956,6 +1135,8 @@ def _c_op(op):
         _, _, p, am, ty, inplace, d = op
         ps = "None" if p is None else f"(Some {_c_pred(p)})"
         return f"Select {s} {ps} {_c_am(am)} {_c_optz(ty)} {L.b(inplace)} {L.z(d)}"
+    if k == "sort" and op[2][0] == "pair":
+        return f"Sort2 {s} {_c_key(op[2][1])} {_c_key(op[2][2])} {L.b(op[3])} {L.b(op[4])} {L.z(op[5])}"
     if k == "sort":
         return f"Sort {s} {_c_key(op[2])} {L.b(op[3])} {L.b(op[4])} {L.z(op[5])}"
     if k == "shuffle":
@@ -963,7 +1144,19 @@ def _c_op(op):
             return f"Shuffle {s} [] {L.b(op[2])} {L.z(op[3])}"
         return f"Shuffle {s} {L.zlist(op[2])} {L.b(op[3])} {L.z(op[4])}"
     if k == "groupby":
-        return f"GroupBy {s} {_c_key(op[2])}"
+        return f"GroupBy {s} {_c_key(op[2])} {L.b(op[3] == 'agentset')}"
+    if k == "groupmap":
+        gm = op[4]
+        g = f"(GMLen {L.b(gm[1])})" if gm[0] == "len" else (f"(GMSumAttr {L.z(gm[1])})" if gm[0] == "sum" else f"(GMGet {L.z(gm[1])})")
+        return f"GroupMap {s} {_c_key(op[2])} {L.b(op[3] == 'agentset')} {g}"
+    if k == "groupdo":
+        return f"GroupDo {s} {_c_key(op[2])} {L.b(op[3] == 'agentset')} {L.b(op[4])} {L.z(op[5])} {L.z(op[6])}"
+    if k == "setop":
+        o = {"or": "SUnion", "and": "SInter", "sub": "SDiff", "xor": "SXor"}[op[3]]
+        return f"SetOp {s} {L.z(op[2])} {o} {L.b(op[4])} {L.z(op[5])}"
+    if k == "setcmp":
+        c = {"eq": "CEq", "le": "CLe", "disjoint": "CDisjoint"}[op[3]]
+        return f"SetCmp {s} {L.z(op[2])} {c}"
     if k == "groupget":
         return f"GroupGet {s} {_c_key(op[2])} {L.z(op[3])} {L.z(op[4])}"
     if k == "groupcount":
@@ -1016,7 +1209,7 @@ def op_kinds(case):
     out = []
     for op in case["ops"]:
         k = op[0]
-        if k in ("select", "sort", "shuffle"):
+        if k in ("select", "sort", "shuffle", "setop"):
             k += "/inplace" if op[-2] else "/copy"
         out.append(k)
     return out
